@@ -240,12 +240,21 @@ def run_unit(u, tier, keep=False, extra_defs=(), want_trace_for=None):
                   "function": loc.get("function", ""), "clause": clause, "bounded": bounded, "unit": u["name"]}
             if "trace" in pr:
                 ob["trace"] = pr["trace"]
+            if st == "FAILURE" and ".overflow." in name and "signed to unsigned type conversion" in desc and not tags:
+                # converting a negative value to an unsigned type is fully defined in C (modular); only flagged by --conversion-check. Note, not judged.
+                ob["status"] = "NOTE"
+                r.notes.append("%s: %s (%s:%s)" % (name, desc, os.path.basename(f), line))
+                continue
             if st == "FAILURE" and ".pointer_arithmetic." in name and "pointer outside object bounds" in desc and not tags:
                 # forming (not dereferencing) a pointer just outside its object: undefined behaviour by the letter of C, but no
                 # property in properties.jsonl forbids it (they speak about reads, writes and frees).  Reported as a note, not judged.
                 ob["status"] = "NOTE"
                 r.notes.append("%s: %s (%s:%s)" % (name, desc, os.path.basename(f), line))
                 continue
+            if st == "FAILURE" and "undefined function should be unreachable" in desc:
+                # the code under proof now calls a function this unit has neither a body nor a contract for: the unit cannot judge it
+                r.status, r.reason = "undecided", "toolchain: call to a function without body/contract in this unit: %s" % name
+                ob["status"] = "UNKNOWN"
             if st == "FAILURE" and (".unwind." in name or "recursion" in name) :
                 # an unwinding assertion that fails means the bound is too small for this code: undecided, never a violation
                 r.status, r.reason = "undecided", "unwind-bound-too-small: %s (%s)" % (name, desc)
